@@ -4624,6 +4624,7 @@ func (t *Terminal) Loop() error {
 						removeFiles(tempFiles)
 					} else {
 						// Failed to start the command. Report the error immediately.
+						removeFiles(tempFiles)
 						t.reqBox.Set(reqPreviewDisplay, previewResult{version, []string{err.Error()}, 0, ""})
 					}
 				} else {
